@@ -246,22 +246,25 @@ structure Cert (α : Type) where
   /-- separated: certified lower bound of the distance; penetrating: certified upper bound of the depth -/
   bound : α
 
-/-- separation certificate of witness points `x1 ∈ A`, `x2 ∈ B`:
-    `bound = −h_A(n) − h_B(−n)` with `n = (x2−x1)/‖x2−x1‖` -/
-def sepCert (A B : Geom α) (x1 x2 : V3 α) (k : α) : Cert α :=
-  let v := V3.sub x2 x1
+/-- separation certificate of witness points `x1 ∈ A`, `x2 ∈ B` and a separating direction `w` (normally `x2 − x1`):
+    `bound = −h_A(n) − h_B(−n)` with `n = w/‖w‖` -/
+def sepCert (A B : Geom α) (x1 x2 w : V3 α) (k : α) : Cert α :=
   { memA := mem (scaled A k) x1
     memB := mem (scaled B k) x2
-    len := V3.norm v
+    len := V3.norm (V3.sub x2 x1)
     slack := (k - one) * (V3.norm (V3.sub x1 A.pos) + V3.norm (V3.sub x2 B.pos))
-    bound := -(overlapAlong A B v) }
+    bound := -(overlapAlong A B w) }
 
-/-- the separated-case acceptance test: witness points in the (scaled) shapes, positive length, certified gap
+/-- the separated-case acceptance test: witness points in the (scaled) shapes, non-zero direction, certified gap
     `len + slack − bound ≤ tol` and reported distance equal to the witness length within `tol` -/
-def sepOK (A B : Geom α) (x1 x2 : V3 α) (dist k tol : α) : Bool :=
-  let c := sepCert A B x1 x2 k
-  c.memA && c.memB && decide ((zero : α) < c.len) && decide (c.len + c.slack - c.bound ≤ tol)
+def sepOK (A B : Geom α) (x1 x2 w : V3 α) (dist k tol : α) : Bool :=
+  let c := sepCert A B x1 x2 w k
+  c.memA && c.memB && decide ((zero : α) < V3.norm w) && decide (c.len + c.slack - c.bound ≤ tol)
     && decide (MjNum.abs (dist - c.len) ≤ tol)
+
+/-- lower-bound test alone (no witness points): the direction `w` separates the geoms by at least `lo` -/
+def sepLowerOK (A B : Geom α) (w : V3 α) (lo : α) : Bool :=
+  decide ((zero : α) < V3.norm w) && decide (lo ≤ -(overlapAlong A B w))
 
 /-- penetration certificate of witness points `x1 ∈ A`, `x2 ∈ B` and a direction `w` (normally `x1 − x2`):
     `bound = h_A(n) + h_B(−n)` with `n = w/‖w‖` -/
@@ -278,5 +281,34 @@ def penOK (A B : Geom α) (x1 x2 w : V3 α) (dist k tol : α) : Bool :=
   let c := penCert A B x1 x2 w k
   c.memA && c.memB && decide ((zero : α) < V3.norm w) && decide (c.bound + c.slack - c.len ≤ tol)
     && decide (MjNum.abs (-dist - c.len) ≤ tol)
+
+/-- the depth test alone (no witness points): the overlap along `w` exceeds the reported depth `−dist` by at most `tol` -/
+def penDepthOK (A B : Geom α) (w : V3 α) (dist tol : α) : Bool :=
+  decide ((zero : α) < V3.norm w) && decide (overlapAlong A B w - (-dist) ≤ tol)
+
+/-! ### inner-ball certificate (a ball contained in both shapes bounds the penetration depth from below) -/
+
+/-- sufficient test for `ball(c, ρ) ⊂ shape`, centre `c` given in the geom frame -/
+def ballInLocal (kind : Kind) (size : V3 α) (c : V3 α) (ρ : α) : Bool :=
+  match kind with
+  | .sphere => decide (V3.norm c + ρ ≤ size.x)
+  | .capsule =>
+    let w := c.z - clampSym c.z size.y
+    decide (V3.norm (⟨c.x, c.y, w⟩ : V3 α) + ρ ≤ size.x)
+  | .ellipsoid =>
+    let u : V3 α := ⟨c.x / size.x, c.y / size.y, c.z / size.z⟩
+    let smin := MjNum.min size.x (MjNum.min size.y size.z)
+    decide ((zero : α) < smin) && decide (V3.norm u + ρ / smin ≤ one)
+  | .cylinder => decide (V3.norm (⟨c.x, c.y, zero⟩ : V3 α) + ρ ≤ size.x) && decide (MjNum.abs c.z + ρ ≤ size.y)
+  | .box => decide (MjNum.abs c.x + ρ ≤ size.x) && decide (MjNum.abs c.y + ρ ≤ size.y) && decide (MjNum.abs c.z + ρ ≤ size.z)
+  | .point => false
+  | .line => false
+
+/-- `ball(c, ρ) ⊂ g` (sufficient test) -/
+def ballIn (g : Geom α) (c : V3 α) (ρ : α) : Bool := ballInLocal g.kind g.size (toLocal g c) ρ
+
+/-- the ball of radius `ρ ≥ 0` about `c` lies in both shapes -/
+def innerBallOK (A B : Geom α) (c : V3 α) (ρ : α) : Bool :=
+  decide ((zero : α) ≤ ρ) && ballIn A c ρ && ballIn B c ρ
 
 end MjProof.Support
